@@ -174,7 +174,7 @@ func TestSA(t *testing.T) {
 	}
 	n := 2000
 	if rec.Thorough() {
-		n = 100000
+		n = 2000000
 	}
 	var adminRoots []root
 	for _, r := range roots {
